@@ -118,6 +118,20 @@ func registerNatives(e *Engine) {
 		e.ghostLog = append(e.ghostLog, strArg(e, a[0]))
 		return nil, true
 	})
+	// Yield: the calling goroutine waits until no other goroutine can run
+	v("Yield", func(e *Engine, g *G, cs *callSite, a []Value) (Value, bool) {
+		if g.yielded {
+			g.yielded = false
+			return nil, true
+		}
+		if !e.othersRunnable(g) {
+			return nil, true
+		}
+		g.yielded = true
+		cs.frame.pc--
+		g.blocked = &pendingOp{kind: "yield", ready: func() bool { return !e.othersRunnable(g) }}
+		return nil, true
+	})
 	v("MaxMake", func(e *Engine, g *G, cs *callSite, a []Value) (Value, bool) { return e.maxMake, true })
 	v("Spawned", func(e *Engine, g *G, cs *callSite, a []Value) (Value, bool) {
 		sub := strArg(e, a[0])
@@ -630,6 +644,34 @@ func (e *Engine) nativeByPattern(fn *ssa.Function) nativeFn {
 			return zero(rs), true
 		}
 	}
+	// package unique: interning table kept by the engine (concrete values only)
+	if strings.HasPrefix(name, "unique.Make[") {
+		return func(e *Engine, g *G, cs *callSite, a []Value) (Value, bool) {
+			key, ok := uniqueKey(a[0])
+			if !ok {
+				e.unsupported("unique.Make of a symbolic value")
+			}
+			key = fn.Signature.Params().At(0).Type().String() + ":" + key
+			if e.uniqueTab == nil {
+				e.uniqueTab = map[string]*Object{}
+			}
+			o := e.uniqueTab[key]
+			if o == nil {
+				saved := e.inInit
+				e.inInit = false // interned values outlive a path; they are immutable
+				o = e.newObject(fn.Signature.Params().At(0).Type(), a[0], "unique")
+				e.inInit = saved
+				e.uniqueTab[key] = o
+			}
+			return &Struct{F: []Value{&Pointer{O: o}}}, true
+		}
+	}
+	if strings.HasPrefix(name, "(unique.Handle[") && strings.HasSuffix(name, ").Value") {
+		return func(e *Engine, g *G, cs *callSite, a []Value) (Value, bool) {
+			p := a[0].(*Struct).F[0].(*Pointer)
+			return e.load(p), true
+		}
+	}
 	if strings.HasPrefix(name, "(*github.com/rcrowley/go-metrics.") || strings.HasPrefix(name, "(github.com/rcrowley/go-metrics.") {
 		return func(e *Engine, g *G, cs *callSite, a []Value) (Value, bool) {
 			rs := fn.Signature.Results()
@@ -732,3 +774,35 @@ func init() {
 }
 
 var sha1Natives map[string]nativeFn
+
+// uniqueKey renders a fully concrete value as a map key (for package unique).
+func uniqueKey(v Value) (string, bool) {
+	switch x := v.(type) {
+	case *Term:
+		if !x.IsConst() {
+			return "", false
+		}
+		return fmt.Sprintf("%d/%d", x.S.W, x.Val), true
+	case *String:
+		if !x.Conc {
+			return "", false
+		}
+		return fmt.Sprintf("%q", x.S), true
+	case *Struct:
+		out := "{"
+		for _, f := range x.F {
+			k, ok := uniqueKey(f)
+			if !ok {
+				return "", false
+			}
+			out += k + ","
+		}
+		return out + "}", true
+	case *Pointer:
+		if x.IsNil() {
+			return "nil", true
+		}
+		return fmt.Sprintf("p%d%v", x.O.id, x.Path), x.Sym == nil
+	}
+	return "", false
+}
